@@ -227,57 +227,59 @@ def check_slippage_tolerance(ctx, model, crate):
 
 
 def check_slippage_clauses(ctx, model):
-    """M3 (pair): the comparisons that reject a deposit. Constant product: for both orientations (i,j) in {(0,1),(1,0)}
+    """M3: the comparisons that reject a deposit. Constant product (pair): for both orientations (i,j) in {(0,1),(1,0)}
     reject iff deposits[i]/deposits[j] * (1 - tolerance) > pools[i]/pools[j], STRICTLY (a deposit exactly on the bound
-    satisfies the documented ratio and must pass); stableswap: reject iff (pools total / supply) * (1 - tolerance) > deposits
-    total / minted amount. Operand trees are compared after normalising spelling; the rejecting edge of each comparison
-    cannot reach a successful return."""
+    satisfies the documented ratio and must pass); stableswap (pair and 3-pool): reject iff (sum of pools / supply) *
+    (1 - tolerance) > sum of deposits / minted amount. Operand trees are compared after normalising spelling; the
+    rejecting edge of each comparison cannot reach a successful return."""
     from ..dataflow import expr_shape, norm_shape, cond_at
     from ..mir import cmp_true_false_edges
-    p = "terraswap_pair::helpers::assert_slippage_tolerance"
-    h = ctx.view(p, "C15-M3")
-    if h is None:
-        return
-    ty = {i: h.local_ty(i) for i in range(1, h.argc + 1)}
-    tol = next((i for i, t in ty.items() if "Option<cosmwasm_std::Decimal>" in t), None)
-    dep = next((i for i, t in ty.items() if "[cosmwasm_std::Uint128; 2]" in t), None)
-    pool = next((i for i, t in ty.items() if "asset::Asset; 2]" in t), None)
-    scal = [i for i, t in ty.items() if t == "cosmwasm_std::Uint128"]
-    if None in (tol, dep, pool) or len(scal) != 2:
-        ctx.missing("C15-M3", "parameters (tolerance, deposits, pools, amount, supply) of %s" % p)
-        return
-    amount, supply = scal
-    D = lambda i: "param(%d).[%d]" % (dep, i)
-    Pl = lambda i: "param(%d).[%d].amount" % (pool, i)
-    omt = ("sub", (("one", ()), "param(%d)" % tol))
-    want = {}
-    for i, j in ((0, 1), (1, 0)):
-        want["constant-product %d/%d" % (i, j)] = (norm_shape(("mul", (("from_ratio", (D(i), D(j))), omt))), ("from_ratio", (Pl(i), Pl(j))))
-    want["stableswap"] = (norm_shape(("mul", (("from_ratio", (norm_shape(("add", (Pl(0), Pl(1)))), "param(%d)" % supply)), omt))),
-                          ("from_ratio", (norm_shape(("add", (D(0), D(1)))), "param(%d)" % amount)))
-    oks = set(ok_value_blocks(h))
-    found = {}
-    for b, c, _ in switch_conds(h):
-        if c.kind != "cmp" or c.op not in (">", "<", ">=", "<="):
+    for crate, n in (("terraswap_pair", 2), ("stableswap_3pool", 3)):
+        p = "%s::helpers::assert_slippage_tolerance" % crate
+        h = ctx.view(p, "C15-M3")
+        if h is None:
             continue
-        at = cond_at(h, c)
-        a, bb_ = norm_shape(expr_shape(h, c.a, at, depth=4)), norm_shape(expr_shape(h, c.b, at, depth=4))
-        te, fe = cmp_true_false_edges(h, b, c)
-        for name, (l, r) in want.items():
-            if (a, bb_) == (l, r):
-                op = c.op
-            elif (bb_, a) == (l, r):
-                op = {">": "<", "<": ">", ">=": "<=", "<=": ">="}[c.op]
-            else:
+        ty = {i: h.local_ty(i) for i in range(1, h.argc + 1)}
+        tol = next((i for i, t in ty.items() if "Option<cosmwasm_std::Decimal>" in t), None)
+        dep = next((i for i, t in ty.items() if "[cosmwasm_std::Uint128; %d]" % n in t), None)
+        pool = next((i for i, t in ty.items() if "asset::Asset; %d]" % n in t), None)
+        scal = [i for i, t in ty.items() if t == "cosmwasm_std::Uint128"]
+        if None in (tol, dep, pool) or len(scal) != 2:
+            ctx.missing("C15-M3", "parameters (tolerance, deposits, pools, amount, supply) of %s" % p)
+            continue
+        amount, supply = scal
+        D = lambda i: "param(%d).[%d]" % (dep, i)
+        Pl = lambda i: "param(%d).[%d].amount" % (pool, i)
+        omt = ("sub", (("one", ()), "param(%d)" % tol))
+        want = {}
+        if n == 2:
+            for i, j in ((0, 1), (1, 0)):
+                want["constant-product %d/%d" % (i, j)] = (norm_shape(("mul", (("from_ratio", (D(i), D(j))), omt))), ("from_ratio", (Pl(i), Pl(j))))
+        want["stableswap"] = (norm_shape(("mul", (("from_ratio", (norm_shape(("add", tuple(Pl(i) for i in range(n)))), "param(%d)" % supply)), omt))),
+                              ("from_ratio", (norm_shape(("add", tuple(D(i) for i in range(n)))), "param(%d)" % amount)))
+        oks = set(ok_value_blocks(h))
+        found = {}
+        for b, c, _ in switch_conds(h):
+            if c.kind != "cmp" or c.op not in (">", "<", ">=", "<="):
                 continue
-            rej_reaches_ok = any(oks & h.reachable(tgt) for _, tgt in te)
-            found[name] = (op, rej_reaches_ok, b)
-    for name in want:
-        got = found.get(name)
-        ok = got is not None and got[0] == ">" and not got[1]
-        ctx.ob("C15-M3", "%s|%s|reject-iff-strictly-beyond-the-bound" % (p, name), ok,
-               "clause %s: %s" % (name, "not found" if got is None else "scaled deposit ratio %s pool ratio rejects; rejecting edge reaches Ok: %s" % (got[0], got[1])),
-               h.where(got[2]) if got else h.where())
+            at = cond_at(h, c)
+            a, bb_ = norm_shape(expr_shape(h, c.a, at, depth=5)), norm_shape(expr_shape(h, c.b, at, depth=5))
+            te, fe = cmp_true_false_edges(h, b, c)
+            for name, (l, r) in want.items():
+                if (a, bb_) == (l, r):
+                    op = c.op
+                elif (bb_, a) == (l, r):
+                    op = {">": "<", "<": ">", ">=": "<=", "<=": ">="}[c.op]
+                else:
+                    continue
+                rej_reaches_ok = any(oks & h.reachable(tgt) for _, tgt in te)
+                found[name] = (op, rej_reaches_ok, b)
+        for name in want:
+            got = found.get(name)
+            ok = got is not None and got[0] == ">" and not got[1]
+            ctx.ob("C15-M3", "%s|%s|reject-iff-strictly-beyond-the-bound" % (p, name), ok,
+                   "clause %s: %s" % (name, "not found" if got is None else "scaled pool/deposit ratio %s bound rejects; rejecting edge reaches Ok: %s" % (got[0], got[1])),
+                   h.where(got[2]) if got else h.where())
 
 
 def check_router(ctx, model):
